@@ -11,7 +11,7 @@ Template = ordinary Verus source with directive blocks
     derive Clone, Copy             (struct/enum: derive list to put back, default: filtered original)
     sig `a` => `b`                 (logged rewrite in the signature, must match exactly once)
     rewrite[R5] `a` => `b`         (logged rewrite in the body, must match exactly once;
-                                    `rewrite*[..]` = all occurrences, at least one)
+                                    `rewrite*[..]` = all occurrences, at least one; `rewrite?[..]` = all, none is fine)
     requires
         <verus clauses ...>
     ensures
@@ -171,11 +171,12 @@ def parse_directive(text, line):
                     a, b = _parse_rw(s[4:], line)
                     d.sig_rewrites.append(('sig', a, b))
                 elif s.startswith('rewrite'):
-                    mm = re.match(r'rewrite(\*?)\[([\w-]+)\]\s+(.*)$', s)
+                    mm = re.match(r'rewrite([*?]?)\[([\w-]+)\]\s+(.*)$', s)
                     if not mm:
                         raise ValueError(f'bad rewrite at template line {line}: {s!r}')
                     a, b = _parse_rw(mm.group(3), line)
-                    d.rewrites.append((mm.group(2), bool(mm.group(1)), a, b))
+                    # `rewrite*` = every occurrence (at least one); `rewrite?` = every occurrence, none is fine
+                    d.rewrites.append((mm.group(2), {'': False, '*': True, '?': 'opt'}[mm.group(1)], a, b))
                 else:
                     raise ValueError(f'unknown directive line at template line {line}: {s!r}')
                 continue
@@ -219,6 +220,9 @@ def apply_rewrite(text, a, b, all_occ, what, log, tag):
         return text[:m.start()] + _fill(b, m) + text[m.end():]
     rx = ws_pattern(a)
     ms = list(rx.finditer(text))
+    if not ms and all_occ == 'opt':
+        log.append({'rule': tag, 'in': what, 'from': a, 'to': b, 'count': 0})
+        return text
     if not ms:
         raise LostAnchor(f'{what}: rewrite[{tag}] pattern not found: {a!r}')
     if len(ms) > 1 and not all_occ:
